@@ -3,8 +3,7 @@
 From Coq Require Import List Arith Bool PeanoNat Lia.
 From Icv Require Import Route.RtModel Route.RtProofs Route.RtNet Route.RtFamilies Route.RtSched Route.RtNetSound.
 From Icv Require Import Route.RtSweep_ch_a Route.RtSweep_ch_b Route.RtSweep_ch_g
-     Route.RtSweep_g_a Route.RtSweep_g_b Route.RtSweep_g_c1 Route.RtSweep_g_c2
-     Route.RtSweep_g_d1 Route.RtSweep_g_d2 Route.RtSweep_g_d3 Route.RtSweep_g_d4.
+     Route.RtSweep_g_a Route.RtSweep_g_b.
 Import ListNotations.
 
 (* a weaker final condition is satisfied by every run that satisfies a stronger one *)
@@ -107,31 +106,20 @@ Proof.
   rewrite rt_skipn_skipn in K3. replace (2 * n + n) with (3 * n) in K3 by lia. auto.
 Qed.
 
-(* trees of depth <= 3, <= 2 children per zone, global target, at most 12 directly related endpoint pairs *)
+(* trees of depth <= 3, <= 2 children per zone, global target, at most 10 directly related endpoint pairs.
+   (Round 2 went up to 12 pairs in six more shards; they were dropped in round 3: C11_global_*_unbounded covers every
+   tree, and the shards made the clean build and above all coqchk - which evaluates vm_compute casts lazily -
+   prohibitively slow.) *)
 Theorem rt_global_all_ok : forall c links s,
-  In c rt_global_trees -> rt_pairs c <= 12 -> In links (rt_powerset (rt_related_pairs c)) ->
+  In c rt_global_trees -> rt_pairs c <= 10 -> In links (rt_powerset (rt_related_pairs c)) ->
   In s (flat_map rt_zeps c) -> rt_all_ok c links (rt_gtarget c) s = true.
 Proof.
   intros c links s Hc Hp Hl Hs.
   assert (rt_sweep_cfg c [rt_gtarget c] = true) as K.
   { destruct (le_lt_dec (rt_pairs c) 9) as [A|A].
     { exact (rt_sweep_g_in _ c rt_sweep_g_a (rt_fam_g_in rt_global_trees 0 9 c Hc (Nat.le_0_l _) A)). }
-    destruct (le_lt_dec (rt_pairs c) 10) as [B|B].
-    { assert (10 <= rt_pairs c) as B' by lia.
-      exact (rt_sweep_g_in _ c rt_sweep_g_b (rt_fam_g_in rt_global_trees 10 10 c Hc B' B)). }
-    destruct (le_lt_dec (rt_pairs c) 11) as [C|C].
-    { assert (11 <= rt_pairs c) as C' by lia.
-      pose proof (rt_fam_g_in rt_global_trees 11 11 c Hc C' C) as I.
-      destruct (rt_in_split _ 13 _ _ I) as [H|H].
-      - exact (rt_sweep_g_in _ c rt_sweep_g_c1 H).
-      - exact (rt_sweep_g_in _ c rt_sweep_g_c2 H). }
-    assert (12 <= rt_pairs c) as D' by lia.
-    pose proof (rt_fam_g_in rt_global_trees 12 12 c Hc D' Hp) as I.
-    destruct (rt_in_split3 _ 8 _ _ I) as [H|[H|[H|H]]].
-    - exact (rt_sweep_g_in _ c rt_sweep_g_d1 H).
-    - exact (rt_sweep_g_in _ c rt_sweep_g_d2 H).
-    - exact (rt_sweep_g_in _ c rt_sweep_g_d3 H).
-    - exact (rt_sweep_g_in _ c rt_sweep_g_d4 H). }
+    assert (10 <= rt_pairs c) as B' by lia.
+    exact (rt_sweep_g_in _ c rt_sweep_g_b (rt_fam_g_in rt_global_trees 10 10 c Hc B' Hp)). }
   apply (rt_sweep_cfg_spec c [rt_gtarget c] links (rt_gtarget c) s K Hl); [|exact Hs]. left. reflexivity.
 Qed.
 
